@@ -151,7 +151,16 @@ def case_strict_dialects(idx, rng, tier, res):
         toks += m.tokens()
     text = Layout(rng, 'noisy' if rng.random() < 0.5 else 'plain').join(toks)
     nmut = 0
-    for dialect in ('smiV2', 'smiV1'):
+    # the two strict dialects as shipped, and the same two spelled out option by option with every
+    # tolerance named and switched off
+    for dialect in ('smiV2', 'smiV1', 'smiV2 (every option False)', 'smiV1 (tolerances False)'):
+        if '(' in dialect and dialect not in c02_ast._PARSERS:
+            from pysmi.parser.smi import parserFactory
+            from checks import c17_dialects as c17_
+            flags = dict((o, False) for o in c17_.OPTIONS)
+            if dialect.startswith('smiV1'):
+                flags.update(supportSmiV1Keywords=True, supportIndex=True)
+            c02_ast._PARSERS[dialect] = parserFactory(**flags)()
         oc = attempt(dialect, text)
         if not generic_judgement(res, 'strict_' + kind, dialect, text, oc):
             continue
